@@ -32,9 +32,12 @@ FruBytes(f) == <<73, 68, 4 + Len(f.pn) + Len(f.ccin) + Len(f.sn), f.flags>> \o f
 PceBytes(p) == <<80, 69, 24 + Len(p.name), p.flags>> \o p.mtm \o p.sn \o p.name
 MruBytes(m) == <<77, 82, 8 + 8 * Len(m.items), (m.flags_hi \div 16) * 16 + Len(m.items)>> \o m.res
                \o Flat([k \in 1..Len(m.items) |-> m.items[k].prio \o m.items[k].id])
-CalloutBody(c) == c.loc \o FruBytes(c.fru)
-                  \o (IF c.pce = <<>> THEN <<>> ELSE PceBytes(c.pce[1]))
-                  \o (IF c.mru = <<>> THEN <<>> ELSE MruBytes(c.mru[1]))
+\* the substructures of a callout follow its location code in the order c.order names them (a permutation of
+\* "ID", "PE", "MR": the usual order is FRU identity, PCE identity, MRU - a decoder may not rely on it)
+SubBytes(c, tag) == CASE tag = "ID" -> FruBytes(c.fru)
+                      [] tag = "PE" -> (IF c.pce = <<>> THEN <<>> ELSE PceBytes(c.pce[1]))
+                      [] tag = "MR" -> (IF c.mru = <<>> THEN <<>> ELSE MruBytes(c.mru[1]))
+CalloutBody(c) == c.loc \o Flat([k \in 1..Len(c.order) |-> SubBytes(c, c.order[k])])
 CalloutBytes(c) == <<4 + Len(CalloutBody(c)), c.flags, c.prio, Len(c.loc)>> \o CalloutBody(c)
 CalloutsBytes(cs) ==
     LET body == Flat([k \in 1..Len(cs.list) |-> CalloutBytes(cs.list[k])])
@@ -79,7 +82,8 @@ FruOK(f) == /\ (Len(f.pn) = 8) = (BitOn(f.flags, 8) \/ BitOn(f.flags, 2))
             \* (both bits may be set: the ONE 8-byte field is then part number and procedure id at once)
             /\ (Len(f.ccin) = 4) = BitOn(f.flags, 4) /\ Len(f.ccin) \in {0, 4}
             /\ (Len(f.sn) = 12) = BitOn(f.flags, 1) /\ Len(f.sn) \in {0, 12}
-CalloutOK(c) == /\ FruOK(c.fru)
+CalloutOK(c) == /\ Len(c.order) = 3 /\ {c.order[k] : k \in 1..3} = {"ID", "PE", "MR"}
+                /\ FruOK(c.fru)
                 /\ Len(CalloutBytes(c)) <= 255
                 /\ (c.pce # <<>> => Len(c.pce[1].name) >= 1 /\ Len(c.pce[1].mtm) = 8 /\ Len(c.pce[1].sn) = 12)
                 /\ (c.mru # <<>> => Len(c.mru[1].items) <= 15)
